@@ -144,3 +144,6 @@ Qed.
 
 Lemma ss_sum_cpiv_nonneg : forall l, Forall (fun x => 0 <= ba_cpiv x) l -> 0 <= ss_sum_cpiv l.
 Proof. unfold ss_sum_cpiv. induction l; cbn; intros H; [lia|]. inversion H; subst. specialize (IHl H3). lia. Qed.
+
+Tactic Notation "bind_as" hyp(H) simple_intropattern(p) ident(E) :=
+  apply ss_bind_some in H; destruct H as [p [E H]].
